@@ -209,3 +209,25 @@ pub fn mode_name(m: GameMode) -> &'static str {
         GameMode::Mania => "mania",
     }
 }
+
+/// Reference driver of C05: feed a line-dispatch trace to the *public* section parsers.
+pub fn beatmap_from_trace(t: &crate::obs::recorder::Trace) -> Beatmap {
+    use rosu_map::{BeatmapState, DecodeBeatmap, DecodeState};
+    let mut st = BeatmapState::create(t.version);
+    for (sec, line) in &t.calls {
+        let _ = match sec {
+            0 => Beatmap::parse_general(&mut st, line),
+            1 => Beatmap::parse_editor(&mut st, line),
+            2 => Beatmap::parse_metadata(&mut st, line),
+            3 => Beatmap::parse_difficulty(&mut st, line),
+            4 => Beatmap::parse_events(&mut st, line),
+            5 => Beatmap::parse_timing_points(&mut st, line),
+            6 => Beatmap::parse_colors(&mut st, line),
+            7 => Beatmap::parse_hit_objects(&mut st, line),
+            8 => Beatmap::parse_variables(&mut st, line),
+            9 => Beatmap::parse_catch_the_beat(&mut st, line),
+            _ => Beatmap::parse_mania(&mut st, line),
+        };
+    }
+    st.into()
+}
